@@ -179,6 +179,7 @@ class Ctx:
         self.f32 = False
         self.solver_time = 0.0
         self.feas_queries = 0
+        self.relations = []     # (guard Bool, polynomial term == 0) facts contributed by contract stubs
         self.env = {}           # symbolic input name -> concrete payload value (self-test point)
         self.deviated = False   # some decision differs from what the concrete payload would have done
 
@@ -1587,6 +1588,7 @@ def _cholesky_ex_stub(m, func, args, kwargs):
                 src = (i, j) if (i, j) in tri else (j, i)
                 Ms[i * n + j] = M[src[0] * n + src[1]]
         pd = z3.And([d > 0 for d in _leading_minors(Ms, n)])
+        ctx.relations += [(info == 0, LLt[i] - Ms[i]) for i in range(n * n)]
         ctx.axioms += [(info == 0) == pd,
                        z3.Implies(info == 0, z3.And([LLt[i] == Ms[i] for i in range(n * n)] + [L[i][i] > 0 for i in range(n)]))]
         if upper:
@@ -1596,6 +1598,11 @@ def _cholesky_ex_stub(m, func, args, kwargs):
         infos.append(info)
     m.write(L_t, Lterms)
     m.write(info_t, infos)
+    for t_, v_ in zip(Lterms, m.concrete_vals(L_t)):
+        if z3.is_const(t_) and not z3.is_rational_value(t_):
+            ctx.env[str(t_)] = v_
+    for t_, v_ in zip(infos, m.concrete_vals(info_t)):
+        ctx.env[str(t_)] = v_
     ctx.stubs.add('linalg.cholesky_ex: contract stub (info==0 <=> leading minors of the read triangle > 0; then L L^T = A, diag > 0)')
     return out
 
@@ -1668,6 +1675,15 @@ def _cholesky_solve(m, func, args, kwargs):
     return out
 
 
+def _nonzero_tol(v):
+    if v is None or isinstance(v, bool):
+        return False
+    try:
+        return float(v) != 0.0
+    except Exception:
+        return False
+
+
 @handler('aten.linalg_pinv.atol_rtol_tensor', 'aten.linalg_pinv.atol_rtol_float', 'aten.linalg_pinv.default', 'aten.pinverse.default')
 def _pinv_stub(m, func, args, kwargs):
     """contract stub: P = pinv(A) is a fresh matrix satisfying the four Moore-Penrose equations; for square A with
@@ -1696,10 +1712,19 @@ def _pinv_stub(m, func, args, kwargs):
             flatM = [M[i][j] for i in range(r) for j in range(r)]
             d = det_terms(flatM, r)
             adj = adjugate_terms(flatM, r)
-            ax.append(z3.Implies(d != 0, z3.And([P[i][j] * d == adj[i * r + j] for i in range(r) for j in range(r)])))
+            # with a non-default tolerance the kernel truncates small singular values: it is the inverse only for
+            # matrices that are well-conditioned relative to that tolerance (an unconstrained fresh predicate here)
+            tol_given = any(_nonzero_tol(kwargs.get(kk)) for kk in ('atol', 'rtol')) or any(_nonzero_tol(a_) for a_ in args[1:3])
+            guard = d != 0
+            if tol_given:
+                guard = z3.And(guard, ctx.fresh('pinv_well_conditioned', 'bool'))
+            ax.append(z3.Implies(guard, z3.And([P[i][j] * d == adj[i * r + j] for i in range(r) for j in range(r)])))
+            ctx.relations += [(guard, P[i][j] * d - adj[i * r + j]) for i in range(r) for j in range(r)]
         ctx.axioms += ax
         res += [P[i][j] for i in range(c) for j in range(r)]
     m.write(out, res)
+    for t_, v_ in zip(res, m.concrete_vals(out)):
+        ctx.env[str(t_)] = v_
     ctx.stubs.add('linalg.pinv: contract stub (four Moore-Penrose equations; = inverse when square and det != 0)')
     ctx.pinv_calls = getattr(ctx, 'pinv_calls', []) + [dict(kwargs, nargs=len(args), P=list(res), extra=list(args[1:]))]
     return out
@@ -1728,8 +1753,22 @@ def _lstsq_stub(m, func, args, kwargs):
                 ctx.axioms.append(z3.Sum([M[i][l] * resid[i] for i in range(r)]) == 0)
         res += [X[i][j] for i in range(c) for j in range(k)]
     m.write(out[0], res)
+    for t_, v_ in zip(res, m.concrete_vals(out[0])):
+        ctx.env[str(t_)] = v_
     for o in out[1:]:
         m.clear(o)
     ctx.stubs.add('linalg.lstsq: contract stub (normal equations)')
     ctx.lstsq_calls = getattr(ctx, 'lstsq_calls', []) + [dict(kwargs, nargs=len(args), extra=[a for a in args[2:]], X=list(res))]
     return out
+
+
+@handler('aten._linalg_check_errors.default')
+def _linalg_check_errors(m, func, args, kwargs):
+    """torch raises LinAlgError when info != 0: a decision on the (symbolic) status flag"""
+    info = args[0]
+    ts = m.terms(info)
+    pred = z3.And([to_real(t) == 0 for t in ts if t is not None])
+    ok = m.ctx.decide(pred, True)
+    if not ok:
+        raise torch.linalg.LinAlgError('%s: the input is not positive-definite / factorisation failed (symbolic status flag != 0)' % args[1])
+    return None
